@@ -27,7 +27,7 @@ def render_class(I, u):
                 return "symbol-less-unit"
         for prefix, symbol, exponent in terms:
             if term_ambiguous(I.L, prefix, symbol):
-                return "ambiguous-text"
+                return "ambiguous-text:" + ambiguous_key(I.L, prefix, symbol)
     except Exception:
         return None
     return None
@@ -48,6 +48,19 @@ def resolve_like_library(L, text):
     return None
 
 
+def ambiguous_key(L, prefix, symbol):
+    """Identity of an ambiguity: the printed term, or 'user-defined-collision' when one of
+    the two readings is a unit defined by the simulated user (synthetic zz.. names)."""
+    ps = prefix.symbol if (prefix.base != 0 and prefix.exponent != 0) else ""
+    text = (ps or "") + symbol
+    r = resolve_like_library(L, text)
+    intended = L.Unit._by_symbol.get(symbol)
+    for u in ((r[1] if r else None), intended):
+        if u is not None and any(n.startswith("zz") for n in getattr(u, "names", ())):
+            return "user-defined-collision"
+    return text
+
+
 def term_ambiguous(L, prefix, symbol):
     """True when the printed term prefix-symbol + unit-symbol resolves (by the
     library's own rules) to something else than that prefix on that unit."""
@@ -63,3 +76,145 @@ def term_ambiguous(L, prefix, symbol):
     if not ps:
         return u is not intended or p is not L.IdentityPrefix
     return not (p is prefix and u is intended)
+
+
+class C13Clauses(Clauses):
+    """(1) Unit.parse(str(u)) denotes u (same normal form / same object; an equal named
+    unit such as kg is accepted), Quantity.parse(str(q)) equals q, at any later point of
+    the history; (2) all spellings of one term list parse to the very same object, and to
+    the model's normal form when no term is ambiguous."""
+
+    def __init__(self, interp):
+        super().__init__(interp)
+        self.rendered = {}   # text op id -> (kind, object, model nf, how)
+        self.groups = {}     # spelling group -> first parsed object
+        self.table = {}
+
+    def sizes_equal(self, a, b):
+        I = self.I
+        sizes = getattr(I.boot, "shipped_sizes", None) or {}
+
+        def size(nf):
+            v = M.p_value(nf[0])
+            if not isinstance(v, Fraction):
+                v = Fraction(v)
+            for t, e in nf[1]:
+                if t not in sizes:
+                    return None
+                v *= Fraction(sizes[t]) ** e
+            return v
+        sa, sb = size(a), size(b)
+        if sa is None or sb is None or I.model.dim_of(a) != I.model.dim_of(b):
+            return False
+        return abs(float(sa / sb) - 1.0) <= 1e-9
+
+    def after_op(self, op, prepared, kind, value, mval, exc, info, rec):
+        I = self.I
+        name = op["op"]
+        if rec.get("injected"):
+            return None
+        if name == "render" and exc is None and op.get("how") == "str" and "id" in op:
+            x = prepared[0][0]
+            xu0 = x if op["kind"] == "unit" else x.unit
+            self.rendered[op["id"]] = (op["kind"], x, prepared[0][1], render_class(I, xu0))
+            return None
+        if name != "parse":
+            return None
+        out = {}
+        if "group" in op:
+            return self.spelling(op, kind, value, exc, out)
+        src = self.rendered.get(op.get("text", [None, None])[1]) if "text" in op else None
+        if src is None:
+            return None
+        skind, x, mx, cls_at_render = src
+        if mx is None:
+            return None
+        xu = x if skind == "unit" else x.unit
+        # the class of the text as it was rendered, else of the symbol table as it is now
+        cls = cls_at_render or render_class(I, xu) or "plain"
+        I.count("C13.roundtrip.checked")
+        if cls != "plain":
+            I.count("C13.roundtrip.known-class:" + cls)
+        if exc is not None:
+            I.violation("C13.roundtrip", "C13/unparseable/%s" % cls,
+                        {"text": info.get("_text") if info else None, "of": M.nf_str(mx),
+                         "error": type(exc).__name__, "text_repr": repr(prepared[0][0])[:80]})
+            return {"C13.roundtrip": "VIOLATED"}
+        if skind == "unit":
+            got = I.nf_of(value)
+            ok = got == mx
+            if ok and value is not x:
+                I.violation("C13.roundtrip", "C13/same-product-different-object/%s" % cls,
+                            {"text": prepared[0][0], "of": M.nf_str(mx)})
+                return {"C13.roundtrip": "VIOLATED"}
+            if not ok and got is not None and self.sizes_equal(got, mx):
+                ok = True
+                I.probe("parsed-to-equal-named-unit")
+            if not ok:
+                I.violation("C13.roundtrip", "C13/different/%s" % cls,
+                            {"text": prepared[0][0], "of": M.nf_str(mx), "parsed": M.nf_str(got)})
+                return {"C13.roundtrip": "VIOLATED"}
+            return {"C13.roundtrip": "ok"}
+        # quantity
+        got = I.nf_of(value.unit)
+        ok = False
+        try:
+            a = Fraction(x.magnitude) * Fraction(M.p_value(mx[0]))
+            b = Fraction(value.magnitude) * Fraction(M.p_value(got[0]))
+            if got[1] == mx[1]:
+                ok = (a == b) or abs(float(a - b)) <= 1e-12 * abs(float(a))
+            elif self.sizes_equal(got, mx):
+                # an equal named unit (kg for kilo*gram): the magnitudes must agree as written
+                a, b = Fraction(x.magnitude), Fraction(value.magnitude)
+                ok = (a == b) or abs(float(a - b)) <= 1e-12 * abs(float(a))
+        except (TypeError, ValueError, OverflowError, ZeroDivisionError):
+            ok = True   # nan/inf magnitudes: out of scope
+        if ok and type(value.magnitude) is not type(x.magnitude) and not (
+                isinstance(x.magnitude, (int, float)) and isinstance(value.magnitude, (int, float))):
+            ok = True   # Decimal magnitudes print like floats/ints: the type written is what parses
+        if not ok:
+            I.violation("C13.roundtrip", "C13/different-quantity/%s" % cls,
+                        {"text": prepared[0][0], "of": [mag_desc(x.magnitude), M.nf_str(mx)],
+                         "parsed": [mag_desc(value.magnitude), M.nf_str(got)]})
+            return {"C13.roundtrip": "VIOLATED"}
+        return {"C13.roundtrip": "ok"}
+
+    def spelling(self, op, kind, value, exc, out):
+        I = self.I
+        g = op["group"]
+        I.count("C13.spelling.checked")
+        amb = bool(op.get("ambiguous"))
+        want = M.nf_from_json(op["nf"]) if op.get("nf") else None
+        if exc is not None:
+            if g in self.groups or not amb:
+                I.violation("C13.spelling", "C13/spelling-rejected/%s" % op.get("variant", "?"),
+                            {"text": op["literal"], "error": type(exc).__name__})
+                return {"C13.spelling": "VIOLATED"}
+            return None
+        mixed = want is not None and len({b for b, _ in want[0]}) > 1
+        first = self.groups.setdefault(g, value)
+        if mixed:
+            # binary and decimal prefixes in one expression: the library folds them with float
+            # logarithms in evaluation order, so only the numeric scale is comparable (1e-9)
+            a, b = I.nf_of(first), I.nf_of(value)
+            same = a is not None and b is not None and a[1] == b[1] and abs(
+                float(M.p_value(a[0])) / float(M.p_value(b[0])) - 1.0) <= 1e-9
+            if same and not amb:
+                same = b[1] == want[1] and abs(float(M.p_value(b[0])) / float(M.p_value(want[0])) - 1.0) <= 1e-9
+            if not same:
+                I.violation("C13.spelling", "C13/spellings-differ/%s" % op.get("variant", "?"),
+                            {"text": op["literal"], "parsed": M.nf_str(b), "first": M.nf_str(a), "mixed_base": True})
+                return {"C13.spelling": "VIOLATED"}
+            return {"C13.spelling": "ok"}
+        if first is not value:
+            I.violation("C13.spelling", "C13/spellings-differ/%s" % op.get("variant", "?"),
+                        {"text": op["literal"], "parsed": M.nf_str(I.nf_of(value)),
+                         "first": M.nf_str(I.nf_of(first))})
+            return {"C13.spelling": "VIOLATED"}
+        if want is not None and not amb:
+            got = I.nf_of(value)
+            if got != want and not (got is not None and self.sizes_equal(got, want)):
+                I.violation("C13.spelling", "C13/spelling-denotes-other/%s" % op.get("variant", "?"),
+                            {"text": op["literal"], "parsed": M.nf_str(got), "expected": M.nf_str(want)})
+                return {"C13.spelling": "VIOLATED"}
+        return {"C13.spelling": "ok"}
